@@ -194,7 +194,7 @@ def generic(run, h, rng, proc):
         if t >= trials - 2:
             width = 0.125 if t == trials - 2 else 0.12
 
-        def mkst(kind, method=None, w=width, fft=None):
+        def mkst(kind, method=None, w=width, fft=None, pp=50.0):
             sm = dict(operator=op, bandwidth=bw, center_frequencies_in_hz=fcs.copy())
             kw = dict(smoothing=sm, window_type_and_width=["tukey", w], fft_settings=fft)
             if kind == "trad":
@@ -202,7 +202,7 @@ def generic(run, h, rng, proc):
             if kind == "sa":
                 return h.HvsrTraditionalSingleAzimuthProcessingSettings(azimuth_in_degrees=37.0, **kw)
             if kind == "rot":
-                return h.HvsrTraditionalRotDppProcessingSettings(azimuths_in_degrees=[0.0, 45.0, 90.0, 135.0], ppth_percentile_for_rotdpp_computation=50.0, **kw)
+                return h.HvsrTraditionalRotDppProcessingSettings(azimuths_in_degrees=[0.0, 45.0, 90.0, 135.0], ppth_percentile_for_rotdpp_computation=pp, **kw)
             if kind == "df":
                 return h.HvsrDiffuseFieldProcessingSettings(**kw)
         kinds = [("trad", m) for m in NAMES] + [("sa", None), ("rot", None), ("df", None)]
@@ -264,6 +264,19 @@ def generic(run, h, rng, proc):
                     closed = (vals[1] + vals[2]) / 2
                 if not np.allclose(flat, closed / C, rtol=1e-9):
                     run.violation(f"proportional:{label}", f"{label} with {op}: components {A}s, {B}s, {C}s give {flat.tolist()[:3]}..., closed form {closed / C}", rep)
+                # the same with a vertical that is STRONGER than every rotated horizontal (a ratio below 1 is a ratio like any other),
+                # for the percentiles 0, 100 and one in between as well
+                if kind in ("rot", "trad", "sa", "df"):
+                    C2 = 8.0
+                    recq = h.SeismicRecording3C(ts(A * x[2], dt), ts(B * x[2], dt), ts(C2 * x[2], dt))
+                    for pp in ((0.0, 100.0, 37.5) if kind == "rot" else (50.0,)):
+                        flat2 = np.atleast_2d(proc([recq], mkst(kind, method, pp=pp)).amplitude)[0]
+                        closed2 = closed
+                        if kind == "rot":
+                            closed2 = float(np.percentile([abs(A * math.cos(math.radians(a)) + B * math.sin(math.radians(a))) for a in (0.0, 45.0, 90.0, 135.0)], pp))
+                        if not np.allclose(flat2, closed2 / C2, rtol=1e-9):
+                            run.violation(f"proportional:{label}", f"{label} (percentile {pp}) with {op}: components {A}s, {B}s, {C2}s give {flat2.tolist()[:3]}..., "
+                                          f"closed form {closed2 / C2}", rep)
                 run.case(("gen", t, label))
             except SmoothedSpectrumNotPositive:
                 run.inconclusive += 1      # Savitzky-Golay weights are not all positive: the smoothed spectrum left the domain of the ratio
